@@ -81,4 +81,13 @@ example :
       = [("a", "warning", "F.java", 3), ("a", "warning", "G.java", 9), ("c", "error", "F.java", 1)] ∧
     sarifRules es = ["a".toList, "b".toList, "c".toList] := by decide
 
+/-- Regenerated: the decisions of the callback `loadRules` hands to `filepath.Walk`: an error of the walk is returned,
+    a regular `*.cql` entry that can be read is appended as it is (whatever it contains — also nothing), one that
+    cannot be read is passed over, and every other return is nil: no file makes the walk skip its siblings. -/
+theorem C17_rule_discovery :
+    Cpf.Generated.loadRulesCallback =
+      ["walk:filepath.Walk(rulesDirectory)", "if:err != nil", "return:err",
+       "if:!info.IsDir() && strings.HasSuffix(info.Name(), \".cql\")", "if:err != nil", "return:nil",
+       "append:rules<-string(contents)", "return:nil"] := by decide
+
 end Cpf.Props.C17
